@@ -125,9 +125,9 @@ def handle (j : Json) : Except String Json := do
   | "substr" =>
       let d ← dialectOf j
       let s ← argStr j "s"
-      match ← argOptInt j "l" with
-      | some l => pure (jsonOfSM (substr3V d s.toList (← argInt j "p") l))
-      | none => pure (jsonOfSM (substr2V d s.toList (← argInt j "p")))
+      match ← argOptInt j "len" with
+      | some l => pure (jsonOfSM (substr3V d s.toList (← argInt j "pos") l))
+      | none => pure (jsonOfSM (substr2V d s.toList (← argInt j "pos")))
   | "udf" =>
       pure (jsonOfSM (pyStringSliceUdf (← svalOfJson (← j.getObjVal? "s")) (← svalOfJson (← j.getObjVal? "a")) (← svalOfJson (← j.getObjVal? "b"))))
   | "getitem_slice" =>
